@@ -564,6 +564,10 @@ class World:
         obj = self.objs[op['h']]
         setattr(obj, op['prop'], self.codec.dec(op['v']))
 
+    def op_set_fh(self, op, r):
+        """Change a public attribute of a logical file's header item (sequence number / id of the next file of a set)."""
+        setattr(self.objs['lf:' + op['lf']].file_header, op['prop'], self.codec.dec(op['v']))
+
     def op_set_sul(self, op, r):
         """Change a public attribute of the file's storage unit label (e.g. the sequence number of the next unit of a set)."""
         f = self.objs['file:' + op['fid']]
